@@ -137,7 +137,7 @@ def replay_universe(ctx, pools, universe, recs):
 def judge(ctx, recs, report=True):
     send = [{k: v for k, v in r.items() if k not in ("what", "spec")} for r in recs]
     # a SPECBUG line (Python disagrees with the specification's model of Python) raises MachineryError
-    verdicts, diverge, _t = batch_verdicts(ctx, "Trace_Compare", send, chunk=5000)
+    verdicts, diverge, _t = batch_verdicts(ctx, "Trace_Compare", send, chunk=3000 if ctx.quick else 5000)
     nbad = 0
     for i in sorted(verdicts):
         for clause in verdicts[i]:
